@@ -24,3 +24,25 @@ PROPS["C16"] = dict(
     level_note=("Trusted: Coq kernel, extraction (ExtrOcamlBasic), OCaml driver, Go harness and generators, "
                 "compress/flate as reference. Model = code only as far as the sampled correspondence shows."),
 )
+
+PROPS["C01"] = dict(
+    rule=("cases: every string of <=1 byte and a 1/7 stratified sample of 2-byte strings (thorough: all 2-byte, 1/61 of "
+          "3-byte); compress/flate output at levels -2,0..9 with random flushes; zlib output over level/windowBits/"
+          "memLevel/strategy/flush modes; bit-level synthesised streams (stored/fixed/dynamic, random complete codes, "
+          "single-code trees, repeat codes, padding bits) and the same with one RFC rule broken (12 kinds); mutations; "
+          "every truncation of 40 synthesised streams; two large inputs. Non-trivial = accepted, or delivered output, or "
+          "longer than 2 bytes; distinct by content hash."),
+    explanation=("The RFC 1951 decoder is the Gallina prog Flate.Spec.inflate_prog. Each case runs through flate.Reader, "
+                 "the extracted model, compress/flate and zlib. Compared with the model: error class, every delivered byte, "
+                 "bytes consumed on success. Implementation oracles: acceptance/output/consumption equal to both references "
+                 "(cases where the references disagree with each other are counted as reference-ambiguity), delivered bytes "
+                 "prefix-comparable with the references on failure, no over-consumption, OutputOffset exact, no panic."),
+    assumptions=["compress/flate and zlib are conforming RFC 1951 decoders (references)"],
+    level_text=("Locality theorems (verdict/output/consumption independent of trailing bytes; any cut gives exactly "
+                "UnexpectedEOF and a prefix of the output) are proved for the Gallina RFC 1951 decoder for all inputs. "
+                "That this decoder is what flate.Reader computes is checked by correspondence on every run (0 disagreements "
+                "required) and it is cross-checked against zlib and compress/flate; the table-lookup/window refinement "
+                "theorems are layered in Prefix/ and Window/ as they are completed."),
+    level_note=("Trusted: Coq kernel, extraction, OCaml driver, Go harness/generators, zlib + compress/flate as references. "
+                "The claim 'model = flate.Reader' is sampled, not proved."),
+)
